@@ -122,7 +122,26 @@ inductive Sig
   | sc (v : Val) (u : Str)
   | seq (xs : List Sig)
   | map (kvs : List (Str × Sig))
-  deriving BEq, Repr, Inhabited
+  deriving Repr, Inhabited
+
+mutual
+/-- structural equality, written out so that the kernel can evaluate it -/
+def Sig.beq : Sig → Sig → Bool
+  | .sc v u, .sc v' u' => decide (v = v') && decide (u = u')
+  | .seq xs, .seq ys => Sig.beqL xs ys
+  | .map xs, .map ys => Sig.beqKV xs ys
+  | _, _ => false
+def Sig.beqL : List Sig → List Sig → Bool
+  | [], [] => true
+  | x :: xs, y :: ys => Sig.beq x y && Sig.beqL xs ys
+  | _, _ => false
+def Sig.beqKV : List (Str × Sig) → List (Str × Sig) → Bool
+  | [], [] => true
+  | (k, x) :: xs, (k', y) :: ys => decide (k = k') && Sig.beq x y && Sig.beqKV xs ys
+  | _, _ => false
+end
+
+instance : BEq Sig := ⟨Sig.beq⟩
 
 mutual
 def sig : Node → Sig
@@ -632,14 +651,20 @@ def wrapAll (m : Schema) : List Arg → Nat → Except Exc (List Node) × Nat
       | (.error e, n2) => (.error e, n2)
       | (.ok ws, n2) => (.ok (w :: ws), n2)
 
-def sortLe (key : SortKey) (rev : Bool) (a b : Node) : Bool :=
-  let ka := match sig a with | .sc _ u => u | _ => []
-  let kb := match sig b with | .sc _ u => u | _ => []
+/-- the text a sort key reads: `.u` of a scalar -/
+def sigU : Sig → Str
+  | .sc _ u => u
+  | _ => []
+
+/-- `key(a) <= key(b)` (`>=` under `reverse=True`) on the `(value, u)` of two items -/
+def sigLe (key : SortKey) (rev : Bool) (a b : Sig) : Bool :=
   match key, rev with
-  | .u, false => strLe ka kb
-  | .u, true => strLe kb ka
-  | .ulen, false => ka.length ≤ kb.length
-  | .ulen, true => kb.length ≤ ka.length
+  | .u, false => strLe (sigU a) (sigU b)
+  | .u, true => strLe (sigU b) (sigU a)
+  | .ulen, false => (sigU a).length ≤ (sigU b).length
+  | .ulen, true => (sigU b).length ≤ (sigU a).length
+
+def sortLe (key : SortKey) (rev : Bool) (a b : Node) : Bool := sigLe key rev (sig a) (sig b)
 
 /-- is every member a scalar (so that the sort keys of the model are defined)? -/
 def scalarMembers (n : Node) : Bool :=
